@@ -115,4 +115,29 @@ def main(tier):
     RP.check((v['gf8poly'] & (2 ** (8 * w) - 1)) == rep_byte(0x1d) and (v['bit7'] & (2 ** (8 * w) - 1)) == rep_byte(0x80) and (v['notbit0'] & (2 ** (8 * w) - 1)) == rep_byte(0xfe),
              'raid/raid_base.c:gf8poly/bit7/notbit0', 'SWAR constants are %#x/%#x/%#x, expected 0x1d/0x80/0xfe replicated over %d bytes' % (v['gf8poly'], v['bit7'], v['notbit0'], w),
              sample='gf8poly = 0x1d x%d' % w)
+    check_base_exits(rep)
     return rep.finish()
+
+
+def check_base_exits(rep):
+    """portable check functions: path-sensitive evaluation of the value returned after a mismatch was seen"""
+    import llir, irrules
+    R = rep.rule('R-CHECK-NONZERO', 'portable xor_check_base / pq_check_base: every loop exit taken on a condition that depends on the array data (a parity mismatch) leads only to returns whose value is non-zero on that path '
+                 '(a non-zero constant, a value OR-ed with a non-zero constant, or a value compared > 0 on the path); phis resolved per incoming edge, branches on path-known values followed on the consistent edge only',
+                 floor=3, unit='mismatch exits')
+    mod = llir.library('default')
+    want = {'xor_check_base': 1, 'pq_check_base': 2}
+    for fn, n in sorted(want.items()):
+        f = mod.funcs.get(fn)
+        if f is None:
+            raise AnalysisBroken(fn + ' not found in the linked IR')
+        exits = irrules.data_exits(mod, f, lambda d: d[0] == 'mem' and d[1][0] == 'ld')
+        if len(exits) < n:
+            raise AnalysisBroken('%s: expected at least %d data-dependent loop exits (parity comparisons), found %d' % (fn, n, len(exits)))
+        for e in exits:
+            R.instance()
+            for cls, path in irrules.nonzero_on_paths(mod, f, e):
+                ok = cls[0] == 'nonzero' or (cls[0] == 'const' and cls[1] != 0)
+                R.check(ok, mod.where(f, e[2]), '%s: after the mismatch exit %s -> %s the path %s returns %s, which is not provably non-zero: an inconsistent array can be reported as consistent'
+                        % (fn, e[0], e[1], ' -> '.join(path), 'the constant 0' if cls == ('const', 0) else cls[1]), key='R-CHECK-NONZERO|%s|%s|%s' % (fn, e[1], path[-2] if len(path) > 1 else path[-1]),
+                        sample='%s: mismatch exit %s returns %s' % (fn, e[1], cls[1] if cls[0] == 'nonzero' else cls[1]))
